@@ -114,22 +114,20 @@ def pair_margin(a, b, m=None, extra_points=()):
                 m.see(c / lw, "point-line angle")
             for (q, n) in planes2:
                 m.see(abs(float(X.dot(X.sub(p, q), n))) / _len(n), "point-plane distance")
-    # directions (once, symmetric)
+    # directions (once, symmetric).  Only parallelism is an incidence: direction x direction and
+    # normal x normal by their sine, line-in/parallel-to-plane by the direction . normal cosine.
+    # (Perpendicularity of two lines or two planes is not an incidence the domain sentence names.)
     for u in fa[3]:
         for v in fb[3]:
             m.see(_sin(u, v), "direction-direction sine")
-            m.see(_cos(u, v), "direction-direction cosine")
         for n in fb[4]:
             m.see(_cos(u, n), "direction-normal cosine")
-            m.see(_sin(u, n), "direction-normal sine")
     for u in fb[3]:
         for n in fa[4]:
             m.see(_cos(u, n), "direction-normal cosine")
-            m.see(_sin(u, n), "direction-normal sine")
     for n1 in fa[4]:
         for n2 in fb[4]:
             m.see(_sin(n1, n2), "normal-normal sine")
-            m.see(_cos(n1, n2), "normal-normal cosine")
     return m
 
 
